@@ -55,7 +55,7 @@ int cmd_enc(int argc, char** argv) {
             try {
                 if (kind == "fd") { int fd = ::open(path.c_str(), O_CREAT | O_WRONLY | O_TRUNC, 0644); e = new CdnsEncoder(fd, c); }
                 else e = new CdnsEncoder(path, c);
-                fprintf(out, "open = ok\n");
+                fprintf(out, "open = ok %zu\n", static_cast<size_t>(CdnsEncoder::BUFFER_SIZE));
             }
             catch (std::exception& x) { fprintf(out, "open = EXC %s\n", exc_name(x).c_str()); }
             continue;
@@ -188,6 +188,7 @@ int cmd_dec(int argc, char** argv) {
         }
         json res = json::array();
         bool hook = true;
+        bool indef = false;   // deliberately shared by all array/map starts of the case
         alloc_reset();
         try {
             CdnsDecoder d(*is);
@@ -202,8 +203,8 @@ int cmd_dec(int argc, char** argv) {
                     else if (op == "b") v = d.read_bool();
                     else if (op == "bs") v = hex(d.read_bytestring());
                     else if (op == "tx") v = hex(d.read_textstring());
-                    else if (op == "arr") { bool indef = false; uint64_t l = d.read_array_start(indef); v = {l, indef}; }
-                    else if (op == "map") { bool indef = false; uint64_t l = d.read_map_start(indef); v = {l, indef}; }
+                    else if (op == "arr") { uint64_t l = d.read_array_start(indef); v = {l, indef}; }
+                    else if (op == "map") { uint64_t l = d.read_map_start(indef); v = {l, indef}; }
                     else if (op == "brk") { d.read_break(); v = "ok"; }
                     else if (op == "skip") { d.skip_item(); v = "ok"; }
                     else if (op == "arr_u") {
